@@ -66,29 +66,19 @@ Theorem C51_block_refuses : forall g p,
 Proof. exact block_refuses. Qed.
 Print Assumptions C51_block_refuses.
 
-(* The executable property predicate evaluated on the implementation holds of the model on every well-shaped
-   input of each of the four operations (JWT: outside the known-finding class kf_C51 = 2; basic: user names
-   unique, as in a Go map). *)
-Theorem C51_prop_of_model_jwt : forall auth mal alg cl now ks extra c keys,
-  dec_claims cl = Some c -> dec_keys ks = Some keys ->
-  let i := VL [VZ 2; VB auth; VZ mal; VZ alg; cl; VZ now; ks; extra] in
-  kf_C51 i = 0 -> prop_C51 i (run_C51 i) = true.
-Proof. exact prop_of_model_jwt. Qed.
-Print Assumptions C51_prop_of_model_jwt.
-Theorem C51_prop_of_model_link : forall he expires checksum digest now e1 e2 e3,
-  let i := VL [VZ 3; VZ he; VB expires; VB checksum; VB digest; VZ now; e1; e2; e3] in prop_C51 i (run_C51 i) = true.
-Proof. exact prop_of_model_link. Qed.
-Print Assumptions C51_prop_of_model_link.
-Theorem C51_prop_of_model_basic : forall auth dok dec us users,
-  dec_users us = Some users ->
-  let i := VL [VZ 1; VB auth; VZ dok; VB dec; us] in prop_C51 i (run_C51 i) = true.
-Proof. exact prop_of_model_basic. Qed.
-Print Assumptions C51_prop_of_model_basic.
-Theorem C51_prop_of_model_block : forall inT hg g hp p e1 e2 g' p',
-  dec_rules hg g = Some g' -> dec_rules hp p = Some p' ->
-  let i := VL [VZ 4; VZ inT; VZ hg; g; VZ hp; p; e1; e2] in prop_C51 i (run_C51 i) = true.
-Proof. exact prop_of_model_block. Qed.
-Print Assumptions C51_prop_of_model_block.
+(* Central theorem.  wf_C51 i: the input decodes into one of the four operations and a Basic user table has unique
+   names.  Outside the known-finding class (kf_C51 i = 2: JWT with a zero / non-numeric time claim) the executable
+   property predicate evaluated on the implementation - forwarded iff not covered by a rule or valid in the statement's
+   sense; secure link accepted iff checksum and freshness; block verdicts - holds of the model. *)
+Theorem C51_prop_of_model : forall i, wf_C51 i = true -> kf_C51 i = 0 -> prop_C51 i (run_C51 i) = true.
+Proof. exact prop_C51_of_model. Qed.
+Print Assumptions C51_prop_of_model.
+
+(* a corpus case (corpus/C51/basics.case, link-prefix: checksum one character short) is well-formed and rejected *)
+Example C51_wf_example :
+  let i := VL [VZ 3; VZ 0; VB []; VB (firstn 21 (b64url (repeat 7 16))); VB (repeat 7 16); VZ 0; VB []; VB []; VB []; VZ 0] in
+  wf_C51 i = true /\ kf_C51 i = 0 /\ run_C51 i = VZ 4.
+Proof. exact C51_wf_example_lemma. Qed.
 
 (* Non-vacuity: an expired token is rejected although its signature verifies; a link whose checksum is a
    proper prefix of the right one is rejected (code 4). *)
